@@ -43,6 +43,10 @@ pub enum ApiOp {
 
 #[derive(Clone, Debug, Serialize, Deserialize)]
 pub struct ClientCase {
+    /// false: dicom-rs is the requestor (ClientAssociation) and the harness plays the acceptor;
+    /// true: dicom-rs is the acceptor (ServerAssociation) and the harness plays the requestor
+    #[serde(default)]
+    pub server: bool,
     pub async_client: bool,
     pub api: Vec<ApiOp>,
     pub peer: Vec<PeerOp>,
@@ -159,6 +163,75 @@ fn run_client(c: &ClientCase, addr: std::net::SocketAddr) -> Result<Vec<ApiResul
     Ok(out)
 }
 
+/// run the API script on a dicom-rs server association accepted from `listener`.
+/// The synchronous ServerAssociation has no release(): there a Release call is carried out as an abort.
+fn run_server(c: &ClientCase, listener: &TcpListener) -> Result<Vec<ApiResult>, String> {
+    use dicom_ul::association::server::ServerAssociationOptions;
+    let t = Duration::from_millis(400);
+    let o = ServerAssociationOptions::new().accept_any().ae_title("VERIF-SCP").with_abstract_syntax(VERIFICATION).read_timeout(t).write_timeout(t);
+    let mut out = vec![];
+    let data_pdu = |n: u16, i: usize| Pdu::PData { data: vec![PDataValue { presentation_context_id: 1, value_type: PDataValueType::Data, is_last: true, data: payload(n as u32 % 3000, 100 + i as u8) }] };
+    let es = |e: dicom_ul::association::Error| crate::img::errs(&e);
+    let (sock, _) = listener.accept().map_err(|e| format!("accept: {e}"))?;
+    if c.async_client {
+        runtime().block_on(async {
+            sock.set_nonblocking(true).map_err(|e| e.to_string())?;
+            let sock = tokio::net::TcpStream::from_std(sock).map_err(|e| e.to_string())?;
+            let mut a = Some(o.establish_async(sock).await.map_err(|e| crate::img::errs(&e))?);
+            for (i, op) in c.api.iter().enumerate() {
+                let Some(assoc) = a.as_mut() else { break };
+                match op {
+                    ApiOp::Send(n) => out.push(match assoc.send(&data_pdu(*n, i)).await {
+                        Ok(()) => ApiResult::Sent,
+                        Err(e) => ApiResult::SendErr(es(e)),
+                    }),
+                    ApiOp::Receive => out.push(match assoc.receive().await {
+                        Ok(p) => {
+                            let (k, d) = ul_kind(&p);
+                            ApiResult::Received(k, d)
+                        }
+                        Err(e) => ApiResult::ReceiveErr(es(e)),
+                    }),
+                    ApiOp::Release => out.push(match a.take().unwrap().release().await {
+                        Ok(()) => ApiResult::Released,
+                        Err(e) => ApiResult::ReleaseErr(es(e)),
+                    }),
+                    ApiOp::Abort => out.push(match a.take().unwrap().abort().await {
+                        Ok(()) => ApiResult::Aborted,
+                        Err(e) => ApiResult::AbortErr(es(e)),
+                    }),
+                }
+            }
+            drop(a);
+            Ok::<_, String>(())
+        })?;
+    } else {
+        let mut a = Some(o.establish(sock).map_err(|e| crate::img::errs(&e))?);
+        for (i, op) in c.api.iter().enumerate() {
+            let Some(assoc) = a.as_mut() else { break };
+            match op {
+                ApiOp::Send(n) => out.push(match assoc.send(&data_pdu(*n, i)) {
+                    Ok(()) => ApiResult::Sent,
+                    Err(e) => ApiResult::SendErr(es(e)),
+                }),
+                ApiOp::Receive => out.push(match assoc.receive() {
+                    Ok(p) => {
+                        let (k, d) = ul_kind(&p);
+                        ApiResult::Received(k, d)
+                    }
+                    Err(e) => ApiResult::ReceiveErr(es(e)),
+                }),
+                ApiOp::Release | ApiOp::Abort => out.push(match a.take().unwrap().abort() {
+                    Ok(()) => ApiResult::Aborted,
+                    Err(e) => ApiResult::AbortErr(es(e)),
+                }),
+            }
+        }
+        drop(a);
+    }
+    Ok(out)
+}
+
 /// the error text of a socket time-out (sync: EAGAIN / WouldBlock, async: the Timeout variant)
 fn is_timeout(e: &str) -> bool {
     let l = e.to_lowercase();
@@ -174,24 +247,45 @@ fn check_client(c: &ClientCase, obs: &mut Obs) {
         }
     };
     let addr = listener.local_addr().unwrap();
-    obs.class(if c.async_client { "async-client" } else { "sync-client" });
-    // the scripted acceptor
+    obs.class(match (c.server, c.async_client) {
+        (false, true) => "async-client",
+        (false, false) => "sync-client",
+        (true, true) => "async-server",
+        (true, false) => "sync-server",
+    });
+    // the scripted peer (acceptor for a dicom-rs requestor, requestor for a dicom-rs acceptor)
     let client_done = std::sync::atomic::AtomicBool::new(false);
     let client_done = &client_done;
+    let listener = &listener;
     let (api_res, peer_sent, peer_got, peer_end) = std::thread::scope(|s| {
-        let acceptor = s.spawn(|| {
+        let acceptor = s.spawn(move || {
             let mut sent: Vec<PduIr> = vec![];
             let mut got: Vec<PduIr> = vec![];
-            let Ok((sock, _)) = listener.accept() else { return (sent, got, "accept failed".to_string()) };
-            let mut p = RawPeer::new(sock);
-            match p.recv(Duration::from_secs(3)) {
-                Recv::Pdu(PduIr::AssocRq { .. }) => {}
-                other => return (sent, got, format!("no association request: {other:?}")),
-            }
-            let ac = PduIr::AssocAc { protocol_version: 1, called: "VERIF-SCP".into(), calling: "VERIF-SCU".into(), app_ctx: ulpeer::APP_CTX.into(), pcs: vec![PcResult { id: 1, reason: 0, transfer_syntax: IMPLICIT.into() }], user: vec![UserItem::MaxLength(16384), UserItem::ImplClassUid("1.2.3".into())] };
-            if p.send(&ac).is_err() {
-                return (sent, got, "cannot send AC".into());
-            }
+            let mut p = if c.server {
+                let Ok(sock) = TcpStream::connect(addr) else { return (sent, got, "connect failed".to_string()) };
+                let mut p = RawPeer::new(sock);
+                let pcs = vec![PcProposed { id: 1, abstract_syntax: VERIFICATION.into(), transfer_syntaxes: vec![IMPLICIT.into()] }];
+                if p.send(&ulpeer::assoc_rq("VERIF-SCP", "VERIF-SCU", pcs, 16384)).is_err() {
+                    return (sent, got, "cannot send RQ".into());
+                }
+                match p.recv(Duration::from_secs(3)) {
+                    Recv::Pdu(PduIr::AssocAc { .. }) => {}
+                    other => return (sent, got, format!("no association acceptance: {other:?}")),
+                }
+                p
+            } else {
+                let Ok((sock, _)) = listener.accept() else { return (sent, got, "accept failed".to_string()) };
+                let mut p = RawPeer::new(sock);
+                match p.recv(Duration::from_secs(3)) {
+                    Recv::Pdu(PduIr::AssocRq { .. }) => {}
+                    other => return (sent, got, format!("no association request: {other:?}")),
+                }
+                let ac = PduIr::AssocAc { protocol_version: 1, called: "VERIF-SCP".into(), calling: "VERIF-SCU".into(), app_ctx: ulpeer::APP_CTX.into(), pcs: vec![PcResult { id: 1, reason: 0, transfer_syntax: IMPLICIT.into() }], user: vec![UserItem::MaxLength(16384), UserItem::ImplClassUid("1.2.3".into())] };
+                if p.send(&ac).is_err() {
+                    return (sent, got, "cannot send AC".into());
+                }
+                p
+            };
             let mut closed = false;
             for (i, op) in c.peer.iter().enumerate() {
                 match op {
@@ -255,7 +349,7 @@ fn check_client(c: &ClientCase, obs: &mut Obs) {
             }
             (sent, got, end)
         });
-        let api = run_client(c, addr);
+        let api = if c.server { run_server(c, listener) } else { run_client(c, addr) };
         client_done.store(true, std::sync::atomic::Ordering::SeqCst);
         let (a, b, e) = acceptor.join().unwrap_or((vec![], vec![], "acceptor thread panicked".into()));
         (api, a, b, e)
@@ -268,12 +362,16 @@ fn check_client(c: &ClientCase, obs: &mut Obs) {
             return;
         }
         Err(e) => {
-            obs.fail("C30:requestor cannot establish an association with a conforming acceptor", e);
+            if c.server && e.contains("no association acceptance") {
+                obs.skip(e);
+                return;
+            }
+            obs.fail(if c.server { "C30:acceptor cannot establish an association with a conforming requestor" } else { "C30:requestor cannot establish an association with a conforming acceptor" }, e);
             return;
         }
     };
     let closed_by_script = peer_end == "closed by the script";
-    let desc = || format!("api script {:?} -> {:?}; acceptor script {:?}; acceptor sent {:?}, received {:?}, end {peer_end}", c.api, api_res.iter().map(|r| format!("{r:?}").chars().take(40).collect::<String>()).collect::<Vec<_>>(), c.peer, peer_sent.iter().map(kind).collect::<Vec<_>>(), peer_got.iter().map(kind).collect::<Vec<_>>());
+    let desc = || format!("dicom-rs side: {}; api script {:?} -> {:?}; acceptor script {:?}; acceptor sent {:?}, received {:?}, end {peer_end}", if c.server { "ServerAssociation (read 'acceptor' below as the scripted requestor)" } else { "ClientAssociation" }, c.api, api_res.iter().map(|r| format!("{r:?}").chars().take(40).collect::<String>()).collect::<Vec<_>>(), c.peer, peer_sent.iter().map(kind).collect::<Vec<_>>(), peer_got.iter().map(kind).collect::<Vec<_>>());
     // the k-th PDU the acceptor sent is what the k-th consuming API call sees
     let mut consumed = 0usize;
     let mut released_ok = false;
@@ -554,8 +652,15 @@ pub fn run(ctx: &Ctx) {
     ctx.run_prop(
         "client_vs_scripted_acceptor",
         "dicom-rs ClientAssociation (sync and async) driven by a generated API script of {send P-DATA, receive, release, abort} (1-6 calls) against an acceptor played by the harness from a generated script of {P-DATA, A-RELEASE-RQ, A-RELEASE-RP, A-ABORT, unknown PDU, half a PDU, close, wait, pause} (0-7 actions); oracle (PS3.8 Sta6-Sta13 restricted to what is observable): the k-th consuming call sees the k-th PDU the acceptor sent; release() is Ok only when the PDU answering the request is an A-RELEASE-RP and fails otherwise; dicom-rs puts on the wire exactly the PDUs its API calls account for, nothing after a release request or abort; the connection is closed when the association object is gone; non-trivial = a release racing with peer activity",
-        || (any::<bool>(), proptest::collection::vec(prop_oneof![2 => any::<u16>().prop_map(ApiOp::Send), 3 => Just(ApiOp::Receive), 3 => Just(ApiOp::Release), 1 => Just(ApiOp::Abort)], 1..=6), peer_ops(8)).prop_map(|(async_client, api, peer)| ClientCase { async_client, api, peer }).boxed(),
+        || (any::<bool>(), proptest::collection::vec(prop_oneof![2 => any::<u16>().prop_map(ApiOp::Send), 3 => Just(ApiOp::Receive), 3 => Just(ApiOp::Release), 1 => Just(ApiOp::Abort)], 1..=6), peer_ops(8)).prop_map(|(async_client, api, peer)| ClientCase { server: false, async_client, api, peer }).boxed(),
         ctx.cases(1_500, 25_000),
+        check_client,
+    );
+    ctx.run_prop(
+        "server_vs_scripted_requestor",
+        "dicom-rs ServerAssociation (sync and async; established through ServerAssociationOptions::establish / establish_async on an accepted socket) driven by the same kind of API script (the async acceptor can also request a release; on the sync acceptor, which has no release(), that call is carried out as abort) against a requestor played by the harness from a generated script; same oracle as for the client: k-th consuming call sees the k-th PDU, release() Ok only on an A-RELEASE-RP, only the PDUs the API calls account for appear on the wire and nothing after a release request or abort, the connection is closed when the association object is gone; non-trivial = a release/abort racing with peer activity",
+        || (any::<bool>(), proptest::collection::vec(prop_oneof![2 => any::<u16>().prop_map(ApiOp::Send), 3 => Just(ApiOp::Receive), 3 => Just(ApiOp::Release), 1 => Just(ApiOp::Abort)], 1..=6), peer_ops(8)).prop_map(|(async_client, api, peer)| ClientCase { server: true, async_client, api, peer }).boxed(),
+        ctx.cases(1_000, 15_000),
         check_client,
     );
     let root = ctx.root.clone();
